@@ -8,91 +8,19 @@
 -/
 import AnthemModel.Model.Analyze
 import AnthemModel.Model.External
+import AnthemModel.Proofs.Graph
 namespace Anthem.C11
 open Asp
 
-/-- reachability in at least one step along the edge list -/
-inductive Path (es : Edges) : Pred → Pred → Prop
-  | step {a b} : (a, b) ∈ es → Path es a b
-  | cons {a b c} : (a, b) ∈ es → Path es b c → Path es a c
+/-- **Completeness of the cycle test** (all edge targets among the nodes): every real cycle is
+    reported. Together with `isCyclic_sound`: the test is exact. -/
+theorem isCyclic_complete (nodes : List Pred) (es : Edges) (htgt : ∀ e ∈ es, e.2 ∈ nodes)
+    (h : ∃ v ∈ nodes, Path es v v) : isCyclic nodes es = true :=
+  Anthem.isCyclic_complete nodes es htgt h
 
-theorem Path.trans {es : Edges} {a b c : Pred} (h₁ : Path es a b) (h₂ : Path es b c) :
-    Path es a c := by
-  induction h₁ with
-  | step h => exact .cons h h₂
-  | cons h _ ih => exact .cons h (ih h₂)
-
-theorem mem_succs {es : Edges} {v w : Pred} : w ∈ succs es v ↔ (v, w) ∈ es := by
-  simp only [succs, List.mem_map, List.mem_filter, decide_eq_true_eq]
-  constructor
-  · rintro ⟨⟨a, b⟩, ⟨h, rfl⟩, rfl⟩; exact h
-  · intro h; exact ⟨(v, w), ⟨h, rfl⟩, rfl⟩
-
-theorem mem_ext' {α} [DecidableEq α] {s t : List α} {x : α} : x ∈ ext s t ↔ x ∈ s ∨ x ∈ t := by
-  unfold ext
-  induction t generalizing s with
-  | nil => simp
-  | cons a t ih =>
-    simp only [List.foldl_cons, ih, List.mem_cons]
-    unfold ins
-    split
-    · constructor
-      · rintro (h | h)
-        · exact Or.inl h
-        · exact Or.inr (Or.inr h)
-      · rintro (h | rfl | h)
-        · exact Or.inl h
-        · rename_i hx; exact Or.inl hx
-        · exact Or.inr h
-    · simp only [List.mem_append, List.mem_singleton]
-      constructor
-      · rintro ((h | rfl) | h)
-        · exact Or.inl h
-        · exact Or.inr (Or.inl rfl)
-        · exact Or.inr (Or.inr h)
-      · rintro (h | rfl | h)
-        · exact Or.inl (Or.inl h)
-        · exact Or.inl (Or.inr rfl)
-        · exact Or.inr h
-
-theorem mem_expand {es : Edges} {s : List Pred} {x : Pred} :
-    x ∈ expand es s → x ∈ s ∨ ∃ v ∈ s, (v, x) ∈ es := by
-  unfold expand
-  suffices h : ∀ (l acc : List Pred), x ∈ l.foldl (fun acc v => ext acc (succs es v)) acc →
-      x ∈ acc ∨ ∃ v ∈ l, (v, x) ∈ es by
-    intro hx
-    exact h s s hx
-  intro l
-  induction l with
-  | nil => intro acc h; exact Or.inl h
-  | cons v l ih =>
-    intro acc h
-    rcases ih _ h with h1 | ⟨u, hu, he⟩
-    · rcases mem_ext'.mp h1 with h2 | h2
-      · exact Or.inl h2
-      · exact Or.inr ⟨v, List.mem_cons_self, mem_succs.mp h2⟩
-    · exact Or.inr ⟨u, List.mem_cons_of_mem _ hu, he⟩
-
-/-- everything `reach` collects from the successors of `v` is reachable from `v` in ≥ 1 step -/
-theorem reach_sound {es : Edges} {v : Pred} : ∀ (n : Nat) (s : List Pred),
-    (∀ x ∈ s, Path es v x) → ∀ x ∈ reach es n s, Path es v x := by
-  intro n
-  induction n with
-  | zero => intro s h x hx; exact h x hx
-  | succ n ih =>
-    intro s h x hx
-    refine ih (expand es s) ?_ x hx
-    intro y hy
-    rcases mem_expand hy with h1 | ⟨u, hu, he⟩
-    · exact h y h1
-    · exact (h u hu).trans (.step he)
-
-/-- **Soundness of the cycle test**: if it reports a cycle, some node reaches itself. -/
-theorem isCyclic_sound (nodes : List Pred) (es : Edges) (h : isCyclic nodes es = true) :
-    ∃ v ∈ nodes, Path es v v := by
-  simp only [isCyclic, List.any_eq_true, decide_eq_true_eq] at h
-  obtain ⟨v, hv, hr⟩ := h
-  exact ⟨v, hv, reach_sound _ _ (fun x hx => .step (mem_succs.mp hx)) v hr⟩
+/-- **`is_tight` is exact**: a program is reported tight iff no predicate depends positively on itself. -/
+theorem tight_iff_acyclic (p : Program) : isTight p = true ↔ ∀ v, ¬ Path (positiveEdges p) v v :=
+  isTight_iff p
 
 /-- Hence: a program reported as *not* tight really has a positive dependency cycle. -/
 theorem not_tight_has_cycle (p : Program) (h : isTight p = false) :
